@@ -620,6 +620,13 @@ class SymCtx:
                     rest = [w - at for w in whole]
                     self.facts += rest            # split_at panics unless at <= len
                     return [at] if path == (("f", 0),) else rest
+                if name.endswith("Option::<T>::unwrap") and len(args) == 1 and args[0][0] == "call" and path == (("f", 1),) and \
+                        any(args[0][1].endswith(x) for x in ("::split_first_mut", "::split_first", "::split_last_mut", "::split_last")) and args[0][2]:
+                    # `let (first, rest) = x.split_first_mut().unwrap()`: rest has len(x) - 1 elements (and len(x) >= 1, or unwrap panicked)
+                    whole = self.symlen(b, args[0][2][0], depth + 1)
+                    rest = [w - 1 for w in whole]
+                    self.facts += rest
+                    return rest
                 if name.endswith("Iterator::next") and path and path[0] == ("dc", 1):
                     # `for chunk in x.chunks_exact(_mut)(n)`: every chunk has exactly n elements
                     it = args[0] if args else None
